@@ -55,6 +55,10 @@ def bases(tier):
             out.append({"L": L, "alap": alap, "resources": rs,
                         "tasks": [T("w", 200), {"id": "g", **({"end": "2025-01-20-17:00"} if alap else {"start": "2025-01-09-09:00"}),
                                                 "children": [T("x", 90, deps=["w"]), T("y", 120, "r2", deps=["!x"])]}]})
+            # the bases with limits once more with every limits / allocate / depends statement written twice (a second limits block
+            # on the same entity must not make the scenarios share counters)
+            for b in [x for x in out[-6:] if "limits" in repr(x)]:
+                out.append({**copy.deepcopy(b), "dup2": True})
             if not alap:
                 # task-level backward scheduling inside a forward project: an ALAP anchor (own end) whose predecessors are not
                 # declared alap themselves (the scheduler marks them backward, once per scenario)
@@ -139,7 +143,7 @@ def value_of(t, attr, how):
 def multi_spec(item):
     base = copy.deepcopy(bases(item["tier"])[item["bi"]])
     spec = {"res_min": base["L"] if base["L"] != 60 else None, "alap": base["alap"], "resources": base["resources"], "tasks": base["tasks"],
-            "scenarios": TREES[item["tree"]]}
+            "scenarios": TREES[item["tree"]], "dup2": base.get("dup2")}
     for sid, tid, attr, how in item["ov"]:
         t = find_task(spec["tasks"], tid)
         v = value_of(t, attr, how)
@@ -149,7 +153,7 @@ def multi_spec(item):
 
 def single_spec(item, sid):
     base = copy.deepcopy(bases(item["tier"])[item["bi"]])
-    spec = {"res_min": base["L"] if base["L"] != 60 else None, "alap": base["alap"], "resources": base["resources"], "tasks": base["tasks"]}
+    spec = {"res_min": base["L"] if base["L"] != 60 else None, "alap": base["alap"], "resources": base["resources"], "tasks": base["tasks"], "dup2": base.get("dup2")}
     parent = dict(scen_list(TREES[item["tree"]]))
     chain = []
     s = sid
